@@ -564,6 +564,12 @@ def _p_exact_single(tier):
         for sh in shapes:
             for al in ((0, 3, 255) if tier == 'quick' else (0, 1, 3, 0x81, 255)):
                 out.append({'layout': layout, 'shape': sh, 'allowed': al, 'mask': 0b011})
+    # the flagged shapes against every single permission bit and mixed masks (the flag byte is symbolic): a flag is accepted
+    # only under its own bit
+    for layout, sh in ((1, [65]), (2, [65, 32])):
+        for al in ((0x04, 0x08, 0x10, 0x20, 0x40, 0x80, 0x5a) if tier == 'quick' else
+                   (0x02, 0x04, 0x08, 0x10, 0x20, 0x40, 0x80, 0x5a, 0xa5, 0x7f, 0xfe, 0x1f, 0xe0)):
+            out.append({'layout': layout, 'shape': sh, 'allowed': al, 'mask': 0b011})
     return out
 
 
